@@ -331,8 +331,17 @@ func resp3To2(val3 respValue) (value respValue) {
 	switch v := val3.data.(type) {
 	case respSimpleString, respErrorString, respInt, respBulkString:
 		value.data = v
-	case respDouble, respBool, respBigNumber, respVerbatimString:
-		value.data = respSimpleString(fmt.Sprintf("%s", v))
+	case respDouble, respBigNumber:
+		value.data = respBulkString(fmt.Sprintf("%s", v))
+	case respBool:
+		if v {
+			value.data = respInt(1)
+		} else {
+			value.data = respInt(0)
+		}
+	case respVerbatimString:
+		// text of any length and content: must be a bulk string, without the format prefix
+		value.data = respBulkString(v.text)
 	case respBlobError:
 		value.data = respErrorString(v.String())
 	case respMap:
